@@ -35,9 +35,12 @@ from typing import Any
 RULE = ("records of length 360 with six genes on a 60-base raster, built with the real constructors: "
         "families A1-A3 (all 1/2/3-subsets with repetition of rule options = contiguous anchor genes x "
         "neighbourhood 0/15/45, on linear/circular layouts incl. genes at 0, at the record end and over the "
-        "origin), AS (x subregion layouts), AX (x sideloaded protoclusters), B (17 gene shapes x 15 "
+        "origin), AS (x subregion layouts), AX (x sideloaded protoclusters), B (19 gene shapes incl. order(...) locations x 20 "
         "decorations (gene functions, notes, PFAM/TIGR/modular domains, motifs, modules, prepeptides) x anchored "
-        "or not), M (no areas, generic features, fungal taxon, other seeds), T (hand-made layouts off the raster); "
+        "or not), M (no areas, generic features, fungal taxon, other seeds), T (hand-made layouts off the raster), "
+        "P (prepeptides with/without leader and tail in a second region and in a region over the origin), O (origin-"
+        "spanning multi-exon genes x origin-spanning regions cutting them at four places), N (locus tags of 47/52/68 "
+        "characters x every decoration); decorations include E-value/score/mass 0.0 variants; "
         "analysis annotations only on genes inside a region, as in the pipeline; thorough adds wider anchor "
         "ranges, all layouts for pairs/triples and seeded random records off the raster. "
         "Non-trivial = record has >= 1 region and >= 3 feature classes; distinct = distinct spec.")
@@ -145,6 +148,12 @@ def input_tags(record: Any) -> list[str]:
         for annotation in cds.gene_functions:
             if not annotation.product and ": " in annotation.description:
                 tags.add("gf-colon")
+        # free-text values of the CDS with a word too long for one GenBank qualifier line (59 columns): the
+        # writer splits the word, the parser joins the lines with a space
+        texts = list(cds.nrps_pks) + list(cds.notes) + list(cds._qualifiers.get("note") or [])  # pylint: disable=protected-access
+        texts += [str(domain) for domain in cds.sec_met.domains] + [str(a) for a in cds.gene_functions]
+        if any(len(word) >= 59 for text in texts for word in str(text).split()):
+            tags.add("long-word")
         if cds.notes and cds._qualifiers.get("note"):  # pylint: disable=protected-access
             tags.add("note-dup")
     for motif in record.get_cds_motifs():
@@ -156,6 +165,8 @@ def input_tags(record: Any) -> list[str]:
                 tags.add("prepeptide-origin")
             if len(motif.location) % 3 or "<" in str(motif.location) or ">" in str(motif.location):
                 tags.add("prepeptide-partial")
+            if len(motif.location.parts) > 1 and motif.location.operator != "join":
+                tags.add("prepeptide-order")
     return sorted(tags)
 
 
@@ -346,13 +357,16 @@ RELEVANT = {
     "fixed-point-content": ["proto-tie", "cand-tie", "sub-tie"],
     "fixed-point-order": ["prepeptide-origin", "prepeptide-partial"],
     "CDS-gene-functions": ["gf-colon"],
-    "CDS_motif": ["prepeptide-origin", "prepeptide-partial"],
+    "CDS": ["long-word"],
+    "CDS_motif": ["prepeptide-origin", "prepeptide-partial", "prepeptide-order"],
 }
 
 
 def qualified(clause: str, tags: list[str]) -> str:
     aspect = clause.split("-", 1)[1]
     present = [tag for tag in RELEVANT.get(aspect, []) if tag in tags]
+    if clause == "json-CDS":
+        present = []        # words are only split and re-joined in GenBank text
     return f"{clause}@{'+'.join(present)}" if present else clause
 
 
@@ -429,7 +443,11 @@ FINDING_CLASSES: dict[str, Any] = {
     # part order over the origin (F6, the C09 defect), partial codons / fuzzy ends lost (F7)
     "C10-F5": lambda clause, case: _known(clause, case, ("CDS_motif", "fixed-point-order"), ("prepeptide-rev",)),
     "C10-F6": lambda clause, case: _known(clause, case, ("CDS_motif", "fixed-point-order"), ("prepeptide-origin",)),
-    "C10-F7": lambda clause, case: _known(clause, case, ("CDS_motif", "fixed-point-order"), ("prepeptide-partial",)),
+    "C10-F7": lambda clause, case: _known(clause, case, ("CDS_motif", "fixed-point-order"),
+                                          ("prepeptide-partial", "prepeptide-order")),
+    # a word of a free-text CDS qualifier (NRPS_PKS 'Matches aSDomain: <id>', note) that does not fit a GenBank
+    # line is split by the writer and comes back with a space inside; only locus_tag/domain_id/label are repaired
+    "C10-F12": lambda clause, case: clause.startswith("gbk-") and _known(clause, case, ("CDS",), ("long-word",)),
     # member genes missed by Record.get_cds_features_within_location (C08) at creation or on reload
     "C10-F8": lambda clause, case: _known(clause, case, ("area-members",), ("cds-link-miss", "cds-query-miss")),
     # SideloadedProtocluster.from_biopython leaves category/core_location/... in the generic qualifiers
